@@ -40,7 +40,7 @@ func genC19(rt *rapid.T) CaseC19 {
 	}
 	n := rapid.IntRange(2, 10).Draw(rt, "nsteps")
 	for i := 0; i < n; i++ {
-		st := StepC19{Kind: rapid.SampledFrom([]string{"local", "local", "remote", "remote", "remote", "rmerge", "rmerge", "merge", "merge", "merge", "reopen", "reopen", "snapshot", "snapshot", "failwrite", "reload", "snapload"}).Draw(rt, "kind")}
+		st := StepC19{Kind: rapid.SampledFrom([]string{"local", "local", "remote", "remote", "remote", "rmerge", "rmerge", "merge", "merge", "merge", "reopen", "reopen", "snapshot", "snapshot", "failwrite", "reload", "snapload", "abortload"}).Draw(rt, "kind")}
 		switch st.Kind {
 		case "reload":
 			st.N = rapid.SampledFrom([]int{-1, 0, 1, 2, 3, 50}).Draw(rt, "limit")
@@ -350,6 +350,41 @@ func execC19(c CaseC19) *Outcome {
 			// Reopen opens with replication on; that is fine here (nobody else publishes)
 			ss.reset(cl.Stores[0])
 			o.Labels = append(o.Labels, "reopen")
+		case "abortload":
+			// a Load of the open store is held at its first block read, a local write is acknowledged meanwhile,
+			// then the Load's context is cancelled: whatever the aborted Load does to the status, nothing the
+			// write raised may go down again
+			s0 := cl.Stores[0]
+			if s0.OpLog().Len() == 0 || trimmed {
+				continue
+			}
+			p0.SetGate(true)
+			lctx, lcancel := context.WithCancel(ctx)
+			ldone := make(chan error, 1)
+			go func() { ldone <- s0.Load(lctx, -1) }()
+			held := world.WaitFor(func() bool { return len(p0.Parked()) > 0 }, time.Second)
+			before := hashSetOf(s0)
+			op, werr := writeAny(ctx, s0, c.Type, 1, 2, cnt)
+			cnt++
+			if werr == nil {
+				werr = tr.noteWrites(s0, 0, before, []model.Op{op})
+			}
+			ss.sample("after a write made while a Load was in flight")
+			lcancel()
+			p0.SetGate(false)
+			select {
+			case <-ldone:
+			case <-time.After(20 * time.Second):
+				o.Inconclusive = true
+				return o
+			}
+			if werr != nil {
+				return fail("step %d: a local write made while a Load was in flight failed: %v", i, werr)
+			}
+			ss.sample("after the aborted Load returned")
+			if held {
+				o.Labels = append(o.Labels, "load-aborted-after-a-write-made-in-flight")
+			}
 		case "snapload":
 			// the open store saves a snapshot and loads it back into itself (whatever its status was: after a
 			// reopen of a forked log it rests below the entry count, which the property allows)
